@@ -5,7 +5,8 @@ import json, os, shutil, subprocess, sys, xml.etree.ElementTree as ET
 
 prop, n = sys.argv[1], sys.argv[2]
 wt, mut = f"/tmp/wt_{prop}", f"/tmp/mut_{prop}"
-sid = f"{prop}-{n}"
+prop_id = prop.rstrip("abcdefgh")
+sid = f"{prop.rstrip(chr(97)+chr(98)+chr(99))}-{n}"
 base = json.load(open("/root/.vp/BASELINE.json"))
 stable = set(base["stable_pass"])
 
